@@ -113,11 +113,16 @@ func genRetryDelay(r *rand.Rand, n int, tier string, emit func(string) string) {
 				delay = pick(r, mags...)
 			}
 		}
-		switch r.Intn(4) {
+		switch r.Intn(5) {
 		case 1:
 			jit = 1 + r.Int63n(base)
 		case 2:
 			j := pick(r, [2]int64{1, 10}, [2]int64{1, 4}, [2]int64{1, 2}, [2]int64{1, 100})
+			jn, jd = j[0], j[1]
+		case 3:
+			// both jitter settings on one builder: neither setter clears the other, and the duration is what applies
+			jit = 1 + r.Int63n(base/50+1)
+			j := pick(r, [2]int64{1, 4}, [2]int64{1, 2})
 			jn, jd = j[0], j[1]
 		}
 		step := int64(0)
